@@ -33,17 +33,12 @@ def parseScale (s : String) : Option Scale :=
   | ["m", m] => (parseMat m).map .mat
   | _ => none
 
-inductive Cmd where
-  | upd (sc : Scale) (idx : List Nat) (table : List Pred)
-  | refine (i k : Nat)
-  | setIter (b : Bool) (idx : List Nat)
-
 def mkTable : List Vec → List Vec → List Mat → Option (List Pred)
   | [], [], [] => some []
   | m :: ms, s :: ss, c :: cs => (mkTable ms ss cs).map ({ mean := m, cov := c, std := s } :: ·)
   | _, _, _ => none
 
-def parseCmd (s : String) : Option Cmd :=
+def parseCmd (s : String) : Option Op :=
   match s.splitOn ":" with
   | ["U", sc, idx, means, stds, covs] => do
     let sc ← parseScale sc
@@ -52,7 +47,7 @@ def parseCmd (s : String) : Option Cmd :=
     let ss ← parseMat stds
     let cs ← parseMats covs
     let t ← mkTable ms ss cs
-    pure (.upd sc idx t)
+    pure (.upd t sc idx)
   | ["R", i, k] => do
     let i ← i.toNat?
     let k ← k.toNat?
@@ -95,21 +90,15 @@ def fuzzyUpd (τ : Rat) (regs : List Region) (fz : List Bool) (table : List Pred
 def fmtTok (st : String) (fz : List Bool) (regs : List Region) : String :=
   st ++ "#" ++ fmtBools fz ++ "#" ++ fmtState regs
 
-def replay (τ : Rat) : List Region → List Bool → List Cmd → List String
+def replay (τ : Rat) : List Region → List Bool → List Op → List String
   | _, _, [] => []
-  | regs, fz, .upd sc idx table :: rest =>
-    let r := Region.update regs table sc idx
-    let fz' := fuzzyUpd τ regs fz table sc idx
+  | regs, fz, o :: rest =>
+    let r := step regs o
+    let fz' := match o with
+      | .upd table sc idx => fuzzyUpd τ regs fz table sc idx
+      | .refine i k => if r.2.isNone then fz ++ List.replicate k (fz.getD i false) else fz
+      | .setIter _ _ => fz
     fmtTok (match r.2 with | none => "ok" | some e => e.name) fz' r.1 :: replay τ r.1 fz' rest
-  | regs, fz, .refine i k :: rest =>
-    match Region.refine regs i k with
-    | none => ["bad-refine"]
-    | some regs' =>
-      let fz' := fz ++ List.replicate k (fz.getD i false)
-      fmtTok "ok" fz' regs' :: replay τ regs' fz' rest
-  | regs, fz, .setIter b idx :: rest =>
-    let regs' := Region.setIter regs idx b
-    fmtTok "ok" fz regs' :: replay τ regs' fz rest
 
 def handle (args : List String) : String :=
   match args with
